@@ -7,6 +7,7 @@
 #include <ksi/policy.h>
 #include <ksi/signature.h>
 #include "hx.h"
+#include "fault.h"
 
 static KSI_CTX *ctx;
 static const KSI_Policy *policy_by_name(const char *n) {
@@ -28,6 +29,7 @@ int main(void) {
 		line[strcspn(line, "\n")] = 0;
 		n = hx_split(line, tok, 64);
 		if (n == 0) continue;
+		if (fault_cmd(tok, n)) { fflush(stdout); continue; }
 		if (!strcmp(tok[0], "V")) {
 			size_t len, hl; unsigned char *raw = hx_dec(tok[2], &len); unsigned char *hraw = NULL;
 			KSI_Signature *sig = NULL; KSI_DataHash *doc = NULL; KSI_PolicyVerificationResult *result = NULL;
